@@ -273,7 +273,7 @@ func ruleQuoteSiblings(c *Ctx, rule string) {
 		return
 	}
 	for i := range dArms {
-		if dArms[i] != sArms[i] {
+		if oneLine(dArms[i]) != oneLine(sArms[i]) { // layout (a comment in one arm leaves a blank line behind) is not a difference
 			ob.Bad("after renaming the state constants and the quote character, the two quote styles differ:\n  double: " + oneLine(dArms[i]) + "\n  single: " + oneLine(sArms[i]))
 			return
 		}
